@@ -21,6 +21,7 @@ fn run_check(id: &str, tier: Tier) -> Option<Report> {
     Some(match id {
         "C01" => checks::c01::run(tier),
         "C02" => checks::c02::run(tier),
+        "C03" => checks::c03::run(tier),
         "C04" => checks::c04::run(tier),
         "C06" => checks::c06::run(tier),
         "C07" => checks::c07::run(tier),
@@ -42,6 +43,7 @@ fn replay_case(id: &str, case: &Value) -> Option<Vec<Failure>> {
     Some(match id {
         "C01" => checks::c01::replay(case),
         "C02" => checks::c02::replay(case),
+        "C03" => checks::c03::replay(case),
         "C04" => checks::c04::replay(case),
         "C06" => checks::c06::replay(case),
         "C07" => checks::c07::replay(case),
